@@ -288,7 +288,34 @@ func fatalSite(stack string) string {
 	return "unknown"
 }
 
+// panicOrigin returns the function in which a panic was raised (the first frame after the
+// runtime's panic frames).
+func panicOrigin(stack string) string {
+	lines := strings.Split(stack, "\n")
+	seenPanic := false
+	for i := 0; i < len(lines); i++ {
+		l := strings.TrimSpace(lines[i])
+		if strings.HasPrefix(l, "panic(") {
+			seenPanic = true
+			continue
+		}
+		if !seenPanic || l == "" || strings.HasPrefix(l, "/") || strings.HasPrefix(l, "runtime.") || strings.HasPrefix(l, "runtime/") {
+			continue
+		}
+		return l
+	}
+	return ""
+}
+
 func (r *Recorder) taskPanic(t *simrt.Task, val interface{}, stack string) {
+	// A panic raised inside the harness or the simulated runtime is an infrastructure failure
+	// (exit 2), never a verdict about the code under test.
+	if o := panicOrigin(stack); strings.HasPrefix(o, "verifsim/") || strings.Contains(o, "/xsim/") {
+		if r.c.Sim.Infra == "" {
+			r.c.Sim.Infra = fmt.Sprintf("panic in the harness (task %s): %v\n%s", t.Name, val, stack)
+		}
+		return
+	}
 	r.Panics++
 	r.ev("panic %s %v", t.Name, val)
 	site := panicSite(stack)
@@ -595,6 +622,7 @@ func (r *Recorder) onStatus(inc *Incarnation, st raft.Status) {
 				if appliedNow {
 					if reg, ok := r.Reg[call.AppendedIndex]; ok && reg.Term == call.AppendedTerm {
 						call.AppliedAtNs = r.c.Sim.Now()
+						call.AppliedSeq = r.seq
 						r.probe("membership-change-applied-by-its-leader")
 					}
 					continue
@@ -953,6 +981,14 @@ func (r *Recorder) logReplayed(inc *Incarnation, lg raft.Log) {
 		m.Entries = append(m.Entries, mentry(e))
 	}
 	r.ev("replayed %s first=%d last=%d", inc.Name(), first, last)
+	if last > old.last().Index && old.first() == first {
+		m.Unsynced = int(last-old.last().Index) + old.Unsynced
+	} else if last <= old.last().Index && old.Unsynced > 0 {
+		// Still the same never-synced tail (or part of it).
+		if lost := int(old.last().Index - last); lost < old.Unsynced {
+			m.Unsynced = old.Unsynced - lost
+		}
+	}
 	r.c.onLogReplayed(inc, old, m)
 	inc.Node.Mirror = m
 }
@@ -976,6 +1012,7 @@ func (r *Recorder) logAppended(inc *Incarnation, es []*raft.LogEntry) {
 		}
 		m.Entries = append(m.Entries, me)
 	}
+	m.Unsynced = 0 // a returned append fsynced the whole file
 	r.ev("append %s %d..%d term=%d", inc.Name(), es[0].Index, es[len(es)-1].Index, es[len(es)-1].Term)
 	if ctx := r.ctxByTask[r.c.Sim.Cur()]; ctx != nil {
 		ctx.appended += len(es)
